@@ -711,6 +711,7 @@ def probe_slp(spec):
         cs = pf.create_cost_samples(price_samples=samples, timegrid=tg2)
         o['cost_samples'] = [[float(v) for v in c] for c in cs]
         slp = make_slp(op2, pf, tg2, start_future, samples)
+        o['slp_mapping'] = dump_mapping(slp.mapping)
         o['slp'] = {'c': [float(v) for v in slp.c], 'l': [float(v) for v in slp.l], 'u': [float(v) for v in slp.u],
                     'rows': dump_rows(slp.A), 'b': [float(v) for v in slp.b], 'cType': str(slp.cType), 'ncols': int(slp.A.shape[1])}
         r = solve(slp)
